@@ -7,6 +7,7 @@ package main
 
 import (
 	"fmt"
+	"regexp"
 	"strconv"
 	"strings"
 
@@ -18,15 +19,25 @@ type aeCase struct {
 	CE, CT, CC     string
 	Content        string
 	AEs            []string // "-" = no Accept-Encoding header
+	Ranges         []string // per request: a Range header, or "" (only with an identity origin)
 }
 
 func (c aeCase) Sx() sx.V {
-	return sx.L(sx.S("aecache"), sx.B(c.Recomp), sx.S(c.CE), sx.S(c.CT), sx.S(c.CC), sx.S(c.Content), sx.Strs(c.AEs))
+	return sx.L(sx.S("aecache"), sx.B(c.Recomp), sx.S(c.CE), sx.S(c.CT), sx.S(c.CC), sx.S(c.Content), sx.Strs(c.AEs), sx.Strs(c.rangesOrNone()))
+}
+
+func (c aeCase) rangesOrNone() []string {
+	if len(c.Ranges) == len(c.AEs) {
+		return c.Ranges
+	}
+	return make([]string, len(c.AEs))
 }
 
 func aeCaseFromSx(v sx.V) aeCase {
-	return aeCase{Recomp: v.N(1).Bool(), CE: v.N(2).Str(), CT: v.N(3).Str(), CC: v.N(4).Str(), Content: v.N(5).Str(), AEs: v.N(6).StrList()}
+	return aeCase{Recomp: v.N(1).Bool(), CE: v.N(2).Str(), CT: v.N(3).Str(), CC: v.N(4).Str(), Content: v.N(5).Str(), AEs: v.N(6).StrList(), Ranges: v.N(7).StrList()}
 }
+
+var contentRangeRe = regexp.MustCompile(`^bytes (\d+)-(\d+)/(\d+|\*)$`)
 
 func (c aeCase) Run() (sx.V, error) {
 	rule := Rule{Enabled: true, Path: "/r/*", Dest: "http://o.test/$1", Type: 1, Recomp: c.Recomp, Cache: "c1"}
@@ -36,10 +47,14 @@ func (c aeCase) Run() (sx.V, error) {
 	}
 	hdrs = append(hdrs, KV{"Content-Length", strconv.Itoa(len(c.Content))}) // replaced by the length on the wire for an encoded body
 	ops := []Op{{Kind: "script", Script: []HostScript{{"o.test", []Behaviour{{Status: 200, Hdrs: hdrs, Body: c.Content, Enc: c.CE}}}}}}
-	for _, ae := range c.AEs {
+	ranges := c.rangesOrNone()
+	for i, ae := range c.AEs {
 		q := Req{Method: "GET", Host: "client.test", Target: "/r/x"}
 		if ae != "-" {
 			q.Hdrs = []KV{{"Accept-Encoding", ae}}
+		}
+		if ranges[i] != "" {
+			q.Hdrs = append(q.Hdrs, KV{"Range", ranges[i]})
 		}
 		ops = append(ops, Op{Kind: "req", Req: q})
 	}
@@ -50,20 +65,41 @@ func (c aeCase) Run() (sx.V, error) {
 	var outs []sx.V
 	for _, o := range raw.List() {
 		cl := o.N(0)
-		ce, edge := "", ""
+		ce, edge, cr, clen := "", "", "", ""
 		for _, kv := range cl.N(2).List() {
 			switch strings.ToLower(kv.N(0).Str()) {
 			case "content-encoding":
 				ce = strings.Join(kv.N(1).StrList(), ",")
 			case "richie-edge-cache":
 				edge = strings.Join(kv.N(1).StrList(), ",")
+			case "content-range":
+				cr = strings.Join(kv.N(1).StrList(), ",")
+			case "content-length":
+				clen = strings.Join(kv.N(1).StrList(), ",")
 			}
 		}
+		status := cl.N(1).Int()
 		body := cl.N(3).Str()
+		// for a partial response: the span its Content-Range names and its Content-Length (the client has already
+		// compared the Content-Length with the bytes that arrived: "cut short")
+		span, declared := int64(-1), int64(-1)
+		if status == 206 {
+			if m := contentRangeRe.FindStringSubmatch(cr); m != nil {
+				a, _ := strconv.ParseInt(m[1], 10, 64)
+				b, _ := strconv.ParseInt(m[2], 10, 64)
+				span = b - a + 1
+			}
+			if n, err := strconv.ParseInt(clen, 10, 64); err == nil {
+				declared = n
+			}
+			if ce != "" {
+				body = "<part of the encoded entry>" // a slice of gzip/br bytes cannot be decoded on its own
+			}
+		}
 		if cl.N(4).Bool() {
 			body += "<cut short>"
 		}
-		outs = append(outs, sx.L(sx.I(cl.N(1).Int()), sx.S(ce), sx.S(body), sx.S(edge), sx.I(int64(len(o.N(1).List())))))
+		outs = append(outs, sx.L(sx.I(status), sx.S(ce), sx.S(body), sx.S(edge), sx.I(int64(len(o.N(1).List()))), sx.I(span), sx.I(declared)))
 	}
 	if len(outs) != len(c.AEs) {
 		return sx.L(), fmt.Errorf("aecache: %d observations for %d requests", len(outs), len(c.AEs))
@@ -82,6 +118,10 @@ func genAeCache(tier string, rng *Rng) []Case {
 	// pinned: a browser that lists gzip before br, then a gzip-only client, and back
 	out = append(out, aeCase{Recomp: true, CT: "text/html", CC: "max-age=600", Content: strings.Repeat("lorem ipsum ", 200),
 		AEs: []string{"gzip, deflate, br", "gzip", "gzip, deflate, br", "gzip", "deflate", "-", "br", "gzip"}})
+	// pinned: a part of the resource requested by clients for which the body is recompressed (first request and hit) and is not
+	out = append(out, aeCase{Recomp: true, CT: "text/plain", CC: "max-age=600", Content: strings.Repeat("0123456789", 10),
+		AEs:    []string{"gzip", "gzip", "-", "-", "br", "br", "gzip"},
+		Ranges: []string{"bytes=10-19", "bytes=10-19", "bytes=10-19", "bytes=-5", "bytes=90-", "", "bytes=0-0"}})
 	for i := 0; i < n; i++ {
 		c := aeCase{Recomp: rng.Chance(85, 100), CE: rng.Pick([]string{"", "", "gzip", "br"}),
 			CT: rng.Pick([]string{"text/html", "text/plain; charset=utf-8", "application/json", "image/png"}),
@@ -100,6 +140,17 @@ func genAeCache(tier string, rng *Rng) []Case {
 		}
 		for j := 4 + rng.Intn(5); j > 0; j-- {
 			c.AEs = append(c.AEs, vals[rng.Intn(k)])
+		}
+		if c.CE == "" && size >= 17 && rng.Chance(50, 100) {
+			// some of the clients ask for a part of the resource
+			c.Ranges = make([]string, len(c.AEs))
+			for j := range c.Ranges {
+				if rng.Chance(45, 100) {
+					a := rng.Intn(size - 1)
+					b := a + rng.Intn(size-a)
+					c.Ranges[j] = rng.Pick([]string{fmt.Sprintf("bytes=%d-%d", a, b), fmt.Sprintf("bytes=%d-", a), fmt.Sprintf("bytes=-%d", 1+rng.Intn(size-1))})
+				}
+			}
 		}
 		out = append(out, c)
 	}
